@@ -52,7 +52,7 @@ var c04FinalCLTVTerms = []string{"field:DecodedBolt11.MinFinalCltvExpiry", "lnrp
 func init() {
 	Register(&Prop{
 		ID:   "C04",
-		Expl: "Decides on the SSA form of the pinned tree, for ALL anchors, heights, invoices and both Lightning back-ends at once: (R1) by constant evaluation of every successful return of getTimelockPolicy, that a Liquid row allows new claim payments only under the guard version==7 and then has window in [1,60], final CLTV <= 29, total CLTV limit in [1,32] and CSV >= 10080, and that every other Liquid row forbids new payments; (R2) that in every function that starts a claim payment, every CFG path from the entry AND every path from one payment attempt to the next passes, on the Liquid branch, the passing edge of a checkPaymentWindow call whose height argument is the result of a TxWatcher.GetBlockHeight call executed in that same attempt; (R3) that every claim-payment call is dominated by `policy.AllowNewClaimPayment == true` of an error-checked getTimelockPolicy result (the legacy edge cannot reach a payment); (R4) that checkPaymentWindow returns nil only under anchor-set, current >= start and current < start+window with the sum formed in 64 bits; (R5) that validateClaimInvoice returns nil only for 0 <= final CLTV <= policy.InvoiceFinalCLTV and that every registration of the confirmation watch is preceded, on the Liquid branch, by its passing edge on the decoded claim invoice, and pay states are entered only from such states; (R6) that the limit handed to RebalancePayment is policy.MaxTotalCLTVDelta, is forwarded unchanged by both back-ends into a builder whose successful return requires ValidateTotalCLTVDelta(final+k, limit) (k>=1) to pass when limit != 0, that the CLTV value placed in the outgoing route/request on that path is the validated one (CLN) or at most limit+1 (LND), and that ValidateTotalCLTVDelta accepts only limit==0 or required<=limit (the same comparison written inline in a builder is accepted in its place). The policy table, the window predicate and the invoice predicate are found by their types and by what they compare (not by their unexported names); predicate helpers with one bool result and one return are instantiated with their arguments, pure pass-through wrappers of the two predicates count as the predicate, payment / registration calls inside small helpers are judged at the helper's call site, and a CLTV value stored by a helper is followed to the argument that carries it.",
+		Expl: "Decides on the SSA form of the pinned tree, for ALL anchors, heights, invoices and both Lightning back-ends at once: (R1) by constant evaluation of every successful return of getTimelockPolicy, that a Liquid row allows new claim payments only under the guard version==7 and then has window in [1,60], final CLTV <= 29, total CLTV limit in [1,32] and CSV >= 10080, and that every other Liquid row forbids new payments; (R2) that in every function that starts a claim payment, every CFG path from the entry AND every path from one payment attempt to the next passes, on the Liquid branch, the passing edge of a checkPaymentWindow call whose height argument is the result of a TxWatcher.GetBlockHeight call executed in that same attempt; (R3) that every claim-payment call is dominated by `policy.AllowNewClaimPayment == true` of an error-checked getTimelockPolicy result (the legacy edge cannot reach a payment); (R4) that checkPaymentWindow returns nil only under anchor-set, current >= start and current < start+window with the sum formed in 64 bits; (R5) that validateClaimInvoice returns nil only for 0 <= final CLTV <= policy.InvoiceFinalCLTV and that every registration of the confirmation watch is preceded, on the Liquid branch, by its passing edge on the decoded claim invoice, and pay states are entered only from such states; (R6) that the limit handed to RebalancePayment is policy.MaxTotalCLTVDelta, is forwarded unchanged by both back-ends into a builder whose successful return requires ValidateTotalCLTVDelta(final+k, limit) (k>=1) to pass when limit != 0, that the CLTV value placed in the outgoing route/request on that path is the validated one (CLN) or at most limit+1 (LND), and that ValidateTotalCLTVDelta accepts only limit==0 or required<=limit (the same comparison written inline in a builder is accepted in its place). The height operand of a window test is followed through helper objects: a helper whose window operands are fields of an object parameter (e.g. a Check method) is resolved through 'field of a fresh struct stored once by its constructor' to the constructor call that performs the tip lookup, and that call must lie in the same retry iteration as the attempt (a window tested against a tip read before the retry loop is a violation). A payment inside a closure or helper also counts the facts that dominate every call of it for R3. The policy table, the window predicate and the invoice predicate are found by their types and by what they compare (not by their unexported names); predicate helpers with one bool result and one return are instantiated with their arguments, pure pass-through wrappers of the two predicates count as the predicate, payment / registration calls inside small helpers are judged at the helper's call site, and a CLTV value stored by a helper is followed to the argument that carries it.",
 		NotD: "Run-time heights and clocks (block intervals, whether 32 Bitcoin blocks really take less than 10021 Liquid blocks); that GetChain/getTimelockPolicy give the same answer at each call within one action; the semantics of lnd's cltv_limit and CLN's route delay inside the nodes; truncation in the uint32/int32 conversions of the builders beyond the guards present; the watcher's own deadline (C20).",
 		Run:  runC04,
 	})
@@ -1452,13 +1452,307 @@ func c04PassThrough(w *an.World, core func(*ssa.Function) bool, idx func(*ssa.Fu
 	return out
 }
 
+// c04CallerFacts: for a closure or helper fn with static call sites, the facts
+// (by text) that dominate every one of those call sites, transitively upwards,
+// and the functions that contain them. Empty when fn has no static call site.
+func c04CallerFacts(w *an.World, fn *ssa.Function, depth int) ([]an.Fact, []*ssa.Function) {
+	if depth > 2 {
+		return nil, nil
+	}
+	sites := findCallSites(w, "func:"+w.FuncName(fn))
+	if len(sites) == 0 {
+		return nil, nil
+	}
+	var common []an.Fact
+	var fns []*ssa.Function
+	for i, cs := range sites {
+		fs := c04FactsDominating(w, cs)
+		up, upFns := c04CallerFacts(w, cs.Parent(), depth+1)
+		fs = append(fs, up...)
+		fns = append(append(fns, cs.Parent()), upFns...)
+		if i == 0 {
+			common = fs
+			continue
+		}
+		have := map[string]bool{}
+		for _, f := range fs {
+			have[f.String()] = true
+		}
+		var keep []an.Fact
+		for _, f := range common {
+			if have[f.String()] {
+				keep = append(keep, f)
+			}
+		}
+		common = keep
+	}
+	return common, fns
+}
+
 // ---- R2 + R3: the claim-payment call sites ----------------------------------------------
 
 type c04WindowCall struct {
 	call   *ssa.Call
-	height *ssa.Call // the GetBlockHeight call feeding it
+	height *ssa.Call // the instruction of the deciding function that performs the tip lookup: the GetBlockHeight call, or the call of the constructor helper that looks the tip up and stores it
+	recv   ssa.Value // the chain service the tip is read from, as a value of the deciding function
+	via    string    // "" or the helper object / constructor the height travels through
 	ok     []an.Edge
 	why    string // non-empty: not usable, with the reason
+}
+
+// c04Operand is a value needed by a window predicate, resolved into the
+// vocabulary of the deciding function fn: either a value of fn, or "looked up
+// by the tip lookup inside the call `at` of fn on receiver recv".
+type c04Operand struct {
+	val    ssa.Value // value in fn (nil when the operand is produced inside a helper call)
+	at     *ssa.Call // call of fn inside which a tip lookup produces the operand
+	recv   ssa.Value // receiver of that lookup, as a value of fn
+	via    string
+	failed string
+}
+
+// c04IsTipLookup: an interface call of a method named GetBlockHeight returning (integer, error).
+func c04IsTipLookup(call *ssa.Call) bool {
+	if !call.Call.IsInvoke() || call.Call.Method == nil || call.Call.Method.Name() != "GetBlockHeight" {
+		return false
+	}
+	r := call.Call.Signature().Results()
+	return r.Len() == 2 && c04IsInt(r.At(0).Type()) && an.IsErrorType(r.At(1).Type())
+}
+
+// c04FieldOfObject resolves field `field` (index) of the struct object obj (a
+// value of fn, usually a pointer) by interpreting "field of a fresh struct
+// stored once by its constructor" as the stored value: obj may be a phi with
+// nil alternatives, a fresh struct of fn, or the result of an in-module
+// constructor helper that allocates the struct and stores the field once.
+func c04FieldOfObject(w *an.World, obj ssa.Value, field int, depth int) c04Operand {
+	if depth > 4 {
+		return c04Operand{failed: "object nesting too deep"}
+	}
+	obj = c04Strip(obj)
+	switch x := obj.(type) {
+	case *ssa.Phi:
+		var got *c04Operand
+		for _, e := range x.Edges {
+			if an.IsNilConst(e) {
+				continue
+			}
+			o := c04FieldOfObject(w, e, field, depth+1)
+			if o.failed != "" {
+				return o
+			}
+			if got != nil && (got.val != o.val || got.at != o.at) {
+				return c04Operand{failed: "the helper object comes from more than one construction"}
+			}
+			got = &o
+		}
+		if got == nil {
+			return c04Operand{failed: "the helper object is never constructed"}
+		}
+		return *got
+	case *ssa.UnOp:
+		// a local variable holding the object
+		if al, ok := x.X.(*ssa.Alloc); ok && x.Op == token.MUL && al.Referrers() != nil {
+			var stores []ssa.Value
+			for _, r := range *al.Referrers() {
+				if st, ok := r.(*ssa.Store); ok && st.Addr == al && !an.IsNilConst(st.Val) {
+					stores = append(stores, st.Val)
+				}
+			}
+			if len(stores) == 1 {
+				return c04FieldOfObject(w, stores[0], field, depth+1)
+			}
+		}
+	case *ssa.Alloc:
+		// a fresh struct of this function: the single store to the field
+		var vals []ssa.Value
+		if x.Referrers() != nil {
+			for _, r := range *x.Referrers() {
+				fa, ok := r.(*ssa.FieldAddr)
+				if !ok || fa.Field != field || fa.Referrers() == nil {
+					continue
+				}
+				for _, rr := range *fa.Referrers() {
+					if st, ok := rr.(*ssa.Store); ok && st.Addr == fa {
+						vals = append(vals, st.Val)
+					}
+				}
+			}
+		}
+		if len(vals) != 1 {
+			return c04Operand{failed: fmt.Sprintf("the field is stored %d times in the fresh struct", len(vals))}
+		}
+		if lk := c04CallOf(vals[0]); lk != nil && c04IsTipLookup(lk) {
+			return c04Operand{val: vals[0], at: lk, recv: lk.Call.Value}
+		}
+		return c04Operand{val: vals[0]}
+	case *ssa.Extract:
+		call, ok := x.Tuple.(*ssa.Call)
+		if !ok {
+			break
+		}
+		return c04FieldFromCtor(w, call, x.Index, field, depth)
+	case *ssa.Call:
+		return c04FieldFromCtor(w, x, 0, field, depth)
+	}
+	return c04Operand{failed: "cannot trace the helper object " + w.Term(obj) + " to its construction"}
+}
+
+// c04FieldFromCtor: the object is result #idx of call (an in-module constructor helper).
+func c04FieldFromCtor(w *an.World, call *ssa.Call, idx, field, depth int) c04Operand {
+	g := call.Call.StaticCallee()
+	if g == nil || call.Call.IsInvoke() || !w.InModule(g) || g.Blocks == nil || len(g.Params) != len(call.Call.Args) {
+		return c04Operand{failed: "the helper object is produced by " + w.Info(call).Name + ", which this rule cannot look into"}
+	}
+	var got *c04Operand
+	for _, r := range an.Returns(g) {
+		if idx >= len(r.Results) || an.IsNilConst(r.Results[idx]) {
+			continue
+		}
+		o := c04FieldOfObject(w, r.Results[idx], field, depth+1)
+		if o.failed != "" {
+			return o
+		}
+		if got != nil && (got.val != o.val || got.at != o.at) {
+			return c04Operand{failed: "the constructor " + w.FuncName(g) + " builds the object in more than one way"}
+		}
+		got = &o
+	}
+	if got == nil {
+		return c04Operand{failed: "the constructor " + w.FuncName(g) + " never returns an object"}
+	}
+	// translate from g's vocabulary into the caller's
+	bindArg := func(v ssa.Value) (ssa.Value, bool) {
+		if p, ok := c04Strip(v).(*ssa.Parameter); ok && p.Parent() == g {
+			return call.Call.Args[c04ParamIndex(p)], true
+		}
+		return nil, false
+	}
+	out := c04Operand{via: w.FuncName(g)}
+	if got.at != nil {
+		// the tip is looked up inside the constructor: the lookup happens when (and
+		// only when) the constructor call executes
+		rv, ok := bindArg(got.recv)
+		if !ok {
+			return c04Operand{failed: "inside " + w.FuncName(g) + " the tip is read from " + w.Term(got.recv) + ", not from a chain service handed in by the caller"}
+		}
+		out.at, out.recv = call, rv
+		return out
+	}
+	if v, ok := bindArg(got.val); ok {
+		out.val = v
+		return out
+	}
+	return c04Operand{failed: "inside " + w.FuncName(g) + " the field is set to " + w.Term(got.val) + ", which is neither a parameter nor a tip lookup"}
+}
+
+// c04ObjectWindowCall interprets a call of an in-module helper g that is a
+// pass-through of a window predicate whose operands are parameters of g or
+// fields of an object parameter of g (e.g. (*claimPaymentWindow).Check).
+func c04ObjectWindowCall(w *an.World, call *ssa.Call, shapes map[*ssa.Function]c04WindowShape) (c04WindowCall, bool) {
+	g := call.Call.StaticCallee()
+	if g == nil || call.Call.IsInvoke() || c04X.isWindow(g) || !w.InModule(g) || g.Blocks == nil || len(g.Params) != len(call.Call.Args) {
+		return c04WindowCall{}, false
+	}
+	r := g.Signature.Results()
+	if r.Len() != 1 || !an.IsErrorType(r.At(0).Type()) {
+		return c04WindowCall{}, false
+	}
+	inner := c04CallsTo(g, c04X.isWindow)
+	if len(inner) != 1 {
+		return c04WindowCall{}, false
+	}
+	in, ok := inner[0].(*ssa.Call)
+	if !ok {
+		return c04WindowCall{}, false
+	}
+	// g returns nil only if the inner predicate returned nil
+	okE, _ := c04DirectOkEdges(in)
+	for _, ret := range an.Returns(g) {
+		switch c04ErrReturnKind(w, ret) {
+		case "err":
+		case "nil":
+			if len(okE) == 0 || !an.EdgesDominate(okE, ret.Block()) {
+				return c04WindowCall{}, false
+			}
+		default:
+			if len(ret.Results) != 1 || ret.Results[0] != ssa.Value(in) {
+				return c04WindowCall{}, false
+			}
+		}
+	}
+	sh := shapes[in.Call.StaticCallee()]
+	wc := c04WindowCall{call: call, via: w.FuncName(g)}
+	if !sh.ok {
+		wc.why = "?the window predicate behind " + w.FuncName(g) + " has a signature this rule does not interpret"
+		return wc, true
+	}
+	// resolve an inner operand into the caller's vocabulary
+	resolve := func(v ssa.Value) c04Operand {
+		v = c04Strip(v)
+		if p, ok := v.(*ssa.Parameter); ok && p.Parent() == g {
+			return c04Operand{val: call.Call.Args[c04ParamIndex(p)]}
+		}
+		// field of an object parameter: load of &param.f (pointer) or param.f (value)
+		var base ssa.Value
+		field := -1
+		switch x := v.(type) {
+		case *ssa.UnOp:
+			if fa, ok := x.X.(*ssa.FieldAddr); ok && x.Op == token.MUL {
+				base, field = fa.X, fa.Field
+			}
+		case *ssa.Field:
+			base, field = x.X, x.Field
+		}
+		if p, ok := base.(*ssa.Parameter); ok && p.Parent() == g && field >= 0 {
+			return c04FieldOfObject(w, call.Call.Args[c04ParamIndex(p)], field, 0)
+		}
+		return c04Operand{failed: "inside " + w.FuncName(g) + " the operand " + w.Term(v) + " is neither a parameter nor a field of a parameter"}
+	}
+	args := in.Call.Args
+	if sh.heightIdx >= len(args) || sh.swapIdx >= len(args) {
+		wc.why = "?argument list does not match the analysed signature"
+		return wc, true
+	}
+	if o := resolve(args[sh.swapIdx]); o.failed != "" {
+		wc.why = "?" + o.failed
+	} else if _, isParam := o.val.(*ssa.Parameter); !isParam {
+		wc.why = "?the swap behind " + w.FuncName(g) + " is not the action's own swap parameter"
+	}
+	if sh.polIdx >= 0 && sh.polIdx < len(args) {
+		if o := resolve(args[sh.polIdx]); o.failed != "" {
+			wc.why = "?" + o.failed
+		} else if o.val == nil || w.Term(o.val) != c04X.policyTerm {
+			wc.why = "?the policy behind " + w.FuncName(g) + " is not the result of getTimelockPolicy"
+		}
+	}
+	h := resolve(args[sh.heightIdx])
+	switch {
+	case h.failed != "":
+		wc.why = "?" + h.failed
+	case h.at != nil:
+		wc.height, wc.recv = h.at, h.recv
+		if h.via != "" {
+			wc.via = h.via
+		}
+	default:
+		lk := c04CallOf(h.val)
+		if lk == nil || !c04IsTipLookup(lk) || !strings.HasSuffix(w.Term(h.val), "#0") {
+			wc.why = "?the height behind " + w.FuncName(g) + " is not the result of a tip lookup (" + w.Term(h.val) + ")"
+		} else {
+			wc.height, wc.recv = lk, lk.Call.Value
+		}
+	}
+	var loose bool
+	wc.ok, loose = c04DirectOkEdges(call)
+	if len(wc.ok) == 0 && wc.why == "" {
+		if loose {
+			wc.why = "?its error is only tested after being merged with other errors"
+		} else {
+			wc.why = "its error result is never tested"
+		}
+	}
+	return wc, true
 }
 
 // c04WindowCalls lists the checkPaymentWindow calls of fn that test this
@@ -1486,7 +1780,7 @@ func c04WindowCalls(w *an.World, fn *ssa.Function, shapes map[*ssa.Function]c04W
 			if h == nil || w.Info(h).Name != fxBlockHeight || !strings.HasSuffix(w.Term(args[sh.heightIdx]), "#0") {
 				wc.why = "?the height argument is not the result of TxWatcher.GetBlockHeight (" + w.Term(args[sh.heightIdx]) + ")"
 			} else {
-				wc.height = h
+				wc.height, wc.recv = h, h.Call.Value
 			}
 			if sh.polIdx >= 0 && sh.polIdx < len(args) && w.Term(args[sh.polIdx]) != c04X.policyTerm {
 				wc.why = "?the policy argument is not the result of getTimelockPolicy (" + w.Term(args[sh.polIdx]) + ")"
@@ -1502,6 +1796,16 @@ func c04WindowCalls(w *an.World, fn *ssa.Function, shapes map[*ssa.Function]c04W
 			}
 		}
 		out = append(out, wc)
+	}
+	// window tests made through a helper object / a helper whose operands are fields
+	for _, ci := range an.Calls(fn) {
+		call, isCall := ci.(*ssa.Call)
+		if !isCall {
+			continue
+		}
+		if wc, ok := c04ObjectWindowCall(w, call, shapes); ok {
+			out = append(out, wc)
+		}
 	}
 	return out
 }
@@ -1525,6 +1829,10 @@ func c04R2R3(c *an.Check, shapes map[*ssa.Function]c04WindowShape) {
 
 		// --- R3: dominated by AllowNewClaimPayment == true of an error-checked policy
 		facts := c04FactsDominating(w, p)
+		// a payment inside a closure / helper with static call sites also runs under
+		// the facts that hold at every one of those call sites
+		outer, outerFns := c04CallerFacts(w, fn, 0)
+		facts = append(facts, outer...)
 		allow := an.AnyFact(facts, func(f an.Fact) bool {
 			return (f.Rel == "true") && f.Atom == c04X.policyTerm+">"+c04X.polName+".AllowNewClaimPayment"
 		})
@@ -1532,7 +1840,11 @@ func c04R2R3(c *an.Check, shapes map[*ssa.Function]c04WindowShape) {
 			return f.NonNum && f.Rel == "==" && ((f.L == "call:"+c04X.policyName+"#1" && f.R == "nil") || (f.R == "call:"+c04X.policyName+"#1" && f.L == "nil"))
 		})
 		ownSwap := false
-		for _, pc := range callsNamed(w, fn, c04X.policyName) {
+		var polCalls []ssa.CallInstruction
+		for _, f := range append([]*ssa.Function{fn}, outerFns...) {
+			polCalls = append(polCalls, callsNamed(w, f, c04X.policyName)...)
+		}
+		for _, pc := range polCalls {
 			if len(pc.Common().Args) == 0 {
 				continue
 			}
@@ -1549,6 +1861,8 @@ func c04R2R3(c *an.Check, shapes map[*ssa.Function]c04WindowShape) {
 		switch {
 		case !allow && allowLoose:
 			c.Unknown("C04.R3", cons, pos, "the payment is dominated by an AllowNewClaimPayment test, but this rule cannot tie the tested policy value to this swap's getTimelockPolicy result. Facts: "+an.DescribeFacts(facts))
+		case !allow && len(outerFns) > 0:
+			c.Unknown("C04.R3", cons, pos, "no AllowNewClaimPayment test dominates the payment inside "+w.FuncName(fn)+" nor every call of it; a closure/helper whose guards are split between it and its callers is a shape this rule does not fully interpret")
 		case !allow && len(opaque) > 0:
 			c.Unknown("C04.R3", cons, pos, "no AllowNewClaimPayment test is visible, but the action branches on "+strings.Join(opaque, ", ")+", which this rule cannot look into")
 		case !allow:
@@ -1614,10 +1928,14 @@ func c04R2R3(c *an.Check, shapes map[*ssa.Function]c04WindowShape) {
 		stale, odd := "", ""
 		for _, wc := range used {
 			if !c04BetweenPasses(p.Block(), wc.call, wc.height) {
-				stale = fmt.Sprintf("the height tested by checkPaymentWindow at %s is read by GetBlockHeight at %s, which is not re-executed between two payment attempts: retries reuse a stale height", w.Pos(wc.call.Pos()), w.Pos(wc.height.Pos()))
+				how := "by GetBlockHeight"
+				if wc.via != "" {
+					how = "inside " + wc.via + " (which stores it in the helper object)"
+				}
+				stale = fmt.Sprintf("window tested against a tip read before the retry loop: the height tested by the window check at %s is read %s at %s, which is not re-executed between two payment attempts: retries reuse a stale height and a claim payment is created after the Liquid tip left [anchor, anchor+window)", w.Pos(wc.call.Pos()), how, w.Pos(wc.height.Pos()))
 			}
 			// the watcher must be the one selected for this swap's chain
-			if recv := wc.height.Call.Value; recv != nil && (c04X.services == "" || !strings.HasPrefix(w.Term(recv), "call:"+c04X.services+"#")) {
+			if recv := wc.recv; recv != nil && (c04X.services == "" || !strings.HasPrefix(w.Term(recv), "call:"+c04X.services+"#")) {
 				odd = fmt.Sprintf("cannot show that the height at %s is read from the chain service selected by getOnChainServices(swap.GetChain()) (receiver %s)", w.Pos(wc.height.Pos()), w.Term(recv))
 			}
 		}
